@@ -457,7 +457,11 @@ package gnet
 // connection is open and with at most IOV_MAX segments, the invariants and the accepted prefix are preserved, failures
 // close the connection. That the accepted stream grows by exactly the concatenation of the segments is not proved
 // (sums over [][]byte that the function rewrites in place): covered by the bounded stand-in bounded/conn_writev_test.go.
+// Proved in addition: whatever is handed to the outbound buffer is the whole unsent vector bs (not a capped view of it).
 //@ func (c *conn) writev(bs [][]byte) (n int, err error)
+//@   assert after (*Buffer).Writev #1: wvarr == arr(bs) && wvoff == off(bs) && wvlen == len(bs)
+//@   assert after (*Buffer).Writev #2: wvarr == arr(bs) && wvoff == off(bs) && wvlen == len(bs)
+//@   assert after (*Buffer).Writev #3: wvarr == arr(bs) && wvoff == off(bs) && wvlen == len(bs)
 //@   requires c != nil && c.loop != nil && elwf(c.loop)
 //@   requires (c.opened ==> CI(c)) && (!c.opened ==> CZ(c))
 //@   arith unchecked byte counts stay far below 2^63
